@@ -33,6 +33,7 @@ type cleanStats struct {
 	Nontrivial int            `json:"distinct_nontrivial"`
 	OutKinds   map[string]int `json:"output_kinds"`
 	Dangerous  int            `json:"cases_with_an_output_evaluating_to_project_dir_or_above"`
+	RelSpokfile int           `json:"cases_run_with_relative_spokfile_flag"`
 	WithClean  int            `json:"cases_with_a_task_named_clean"`
 	Nested     int            `json:"cases_run_from_a_nested_directory"`
 	Removed    int            `json:"paths_removed_in_total"`
@@ -191,6 +192,12 @@ func cleanCmd(args []string) error {
 				st.Nested++
 			}
 		}
+		// every third case: the same clean asked for from the sandbox root with a RELATIVE --spokfile
+		relSpok := st.Cases%3 == 1
+		if relSpok {
+			cwd = home
+			st.RelSpokfile++
+		}
 		before := snapshot(home)
 		var fenc []string
 		for _, p := range before {
@@ -280,6 +287,12 @@ func cleanCmd(args []string) error {
 		// ---- run
 		cmd := exec.Command(*spok, "--clean")
 		cmd.Dir = cwd
+		if relSpok {
+			if rp, rerr := filepath.Rel(home, spokPath); rerr == nil {
+				cmd = exec.Command(*spok, "--clean", "--spokfile", rp)
+				cmd.Dir = cwd
+			}
+		}
 		cmd.Env = []string{"HOME=" + home, "PATH=/usr/bin:/bin"}
 		var se bytes.Buffer
 		cmd.Stderr = &se
